@@ -243,7 +243,7 @@ Section Once.
     all: destruct H as [H|H]; [inversion H; auto|].
     all: try (destruct H as [H|[H|[]]]; discriminate).
     all: destruct H as [H|H]; [discriminate|]; apply in_app_or in H; destruct H as [H|[H|[]]]; [|discriminate].
-    all: destruct (children sc p u links); cbn in H; [contradiction | destruct H as [H|[]]; discriminate].
+    all: apply flush_In in H; destruct H as [k' [E _]]; discriminate E.
   Qed.
 
   Lemma requested_once_without_redirects s : no_redirects -> no_fail -> reach_nc s -> NoDup (all_reqs (st_log s)).
